@@ -668,6 +668,11 @@ Definition run_disp (c impl : sexp) : sexp :=
        end) evs in
   let v_c01_disp := forallb (fun x => c01_events (sx_request (sx_nth 1 (fst x))) (sx_strs (sx_nth 5 (snd x))))
                             (combine hist i_seq ++ combine hist i_conc) in
+  (* what the route function is handed: its "saw:" event names the selected route's path and the parameter map; it must
+     be the model's, request by request - the path parameters bound from the URL, behind whatever filters and adapted
+     middleware the chain contains (a filter passing on a NEW Request wrapper drops them, in the model too) *)
+  let saws (o : sexp) := filter (fun e => has_prefix e (L "saw:")) (sx_strs (sx_nth 5 o)) in
+  let v_saw := forallb (fun mi => sexp_eqb (of_strs (saws (fst mi))) (of_strs (saws (snd mi)))) (combine obs i_seq) in
   let same l1 l2 := Nat.eqb (List.length l1) (List.length l2)
                     && forallb (fun p => sexp_eqb (fst p) (snd p)) (combine l1 l2) in
   let v_c19_hist := same i_seq i_fresh in
@@ -686,6 +691,8 @@ Definition run_disp (c impl : sexp) : sexp :=
               else "empty")%string in
   Lst [ m_obs;
         Lst [ verdict "c01_route_function_sees_itself_and_admits" v_c01_disp;
+              verdict "c04_route_function_is_handed_the_bound_parameters" v_saw;
+              verdict "c06_handler_receives_what_the_filters_passed_on" v_saw;
               verdict "c06_filter_order" v_c06;
               verdict "c06_attributes_reach_later_stages" v_c06_attrs;
               verdict "c06_concurrent_same_as_alone" v_c19_conc;
@@ -907,7 +914,11 @@ Definition ent_registry : registry :=
 
 Definition sx_opt_str (x : sexp) : option str := match sx_list x with [] => None | y :: _ => Some (sx_str y) end.
 
-Definition ent_one (dflt : str) (rq : sexp) : sexp * bool :=
+(* the registry after the application re-registered the two standard types with each other's accessors *)
+Definition ent_registry_swapped : registry :=
+  [(L "application/json", CXml); (L "application/xml", CJson); (L "application/vnd.x+json", CJson)].
+
+Definition ent_one (reg : registry) (dflt : str) (rq : sexp) : sexp * bool :=
   let ct := sx_str (sx_nth 0 rq) in
   let ce := sx_str (sx_nth 1 rq) in
   let orc := sx_nth 7 rq in
@@ -925,7 +936,7 @@ Definition ent_one (dflt : str) (rq : sexp) : sexp * bool :=
   let inflate (b : str) := if str_eqb b body then inf else None in
   let inflate_open (b : str) := sx_bool (sx_nth 4 orc) in
   let pick (l : list codec) := match l with c :: _ => Some c | [] => None end in
-  let '(r, acquired) := read_entity str decode gunzip inflate inflate_open ent_registry dflt ct ce body
+  let '(r, acquired) := read_entity str decode gunzip inflate inflate_open reg dflt ct ce body
                                     {| gz_src := []; gz_residue := []; gz_err := false |} pick in
   (match r with
    | ROk v => Lst [I 1; A v]
@@ -937,7 +948,11 @@ Definition run_ent (c impl : sexp) : sexp :=
   let dflt := sx_str (sx_nth 3 c) in
   let mode := sx_int (sx_nth 4 c) in
   let reqs := sx_list (sx_nth 5 c) in
-  let res := map (ent_one dflt) reqs in
+  (* 7th element, when present and true: before the history the application registered the XML accessor for
+     application/json and the JSON accessor for application/xml (after every spelling of the history had been looked up
+     once under the standard registry); every request of the case is then read by the accessor registered NOW *)
+  let swapped := sx_bool (sx_nth 6 c) in
+  let res := map (ent_one (if swapped then ent_registry_swapped else ent_registry) dflt) reqs in
   let obs := map fst res in
   let conc := if Z.eqb mode 0 then [] else obs ++ obs ++ obs in
   let i_seq := sx_list (sx_nth 0 impl) in
@@ -948,7 +963,7 @@ Definition run_ent (c impl : sexp) : sexp :=
   let faithful rq :=
       let codec := sx_int (sx_nth 3 rq) in
       let enc := sx_int (sx_nth 5 rq) in
-      Z.eqb (sx_int (sx_nth 6 rq)) 0 &&
+      negb swapped && Z.eqb (sx_int (sx_nth 6 rq)) 0 &&
       str_eqb (sx_str (sx_nth 1 rq)) (match enc with 0 => [] | 1 => L "gzip" | 3 => L "gzip" | _ => L "deflate" end)%Z &&
       (let ct := sx_str (sx_nth 0 rq) in
        if Z.eqb codec 0 then has_prefix ct (L "application/json") || has_prefix ct (L "application/vnd.x+json")
@@ -967,6 +982,7 @@ Definition run_ent (c impl : sexp) : sexp :=
   (* what the standard decoders refuse (the model's answer is an error) is an error for the reader too *)
   let v_broken := forallb (fun p => implb (negb (Z.eqb (sx_int (sx_nth 0 (fst p))) 1))
                                           (negb (Z.eqb (sx_int (sx_nth 0 (snd p))) 1))) (combine obs i_seq) in
+  let v_noblock := forallb (fun io => negb (Z.eqb (sx_int (sx_nth 0 io)) (-2))) (i_seq ++ i_fresh ++ i_conc) in
   let v_nopanic := forallb (fun io => negb (Z.eqb (sx_int (sx_nth 0 io)) (-1))) (i_seq ++ i_fresh ++ i_conc) in
   let same l1 l2 := Nat.eqb (List.length l1) (List.length l2) && forallb (fun p => sexp_eqb (fst p) (snd p)) (combine l1 l2) in
   let v_hist := same i_seq i_fresh in
@@ -984,7 +1000,10 @@ Definition run_ent (c impl : sexp) : sexp :=
               verdict "c13_readers_never_shared" (Z.eqb (sx_int (sx_nth 2 led)) 0);
               (* exclusive use, as a client sees it: bodies decoded while other requests are in flight come out as they
                  do alone *)
-              verdict "c13_concurrent_bodies_decoded_as_alone" v_conc ];
+              verdict "c13_concurrent_bodies_decoded_as_alone" v_conc;
+              (* every request comes back (the harness gives a request 20 s; class -2 = it never did) *)
+              verdict "c13_decoding_a_body_never_blocks" v_noblock;
+              verdict "c16_every_request_is_answered" v_noblock ];
         A (L cls);
         Lst [ verdict "all_faithful" (forallb faithful reqs); verdict "concurrent" (negb (Z.eqb mode 0));
               verdict "history_longer_than_one" (Nat.ltb 1 (List.length reqs)) ] ].
